@@ -8,10 +8,15 @@ import vlib
 
 RULE = ("random dependency DAGs of 1..30 resolve.SingleFetch items (chains/forks, layered, fan-out then joins, "
         "several components, random sparse; injective ids out of order with gaps; optional dependencies on ids "
-        "that are not in the list; occasionally a repeated entry; list order as generated, reversed or shuffled), "
-        "each processed by the real postprocess.Processor in four configurations (legacy waves, scheduler, "
-        "MultiFetch pre-pass + scheduler, scheduler on a subscription plan), three times each; 1 in 12 cases is "
-        "malformed (a fetch listed twice, at most 12 fetches). A case is distinct by the hash of its line and "
+        "that are not in the list; occasionally a repeated entry; list order as generated, reversed or shuffled; in 3 of 4 "
+        "DAGs a quarter to three quarters of the fetches are entity / batch-entity fetches on 1-3 datasources that the real "
+        "createMultiFetch stage merges when they share a wave, with differing and overlapping dependency lists in shuffled "
+        "order, occasionally a differing request envelope that aborts a merge), "
+        "each processed by the real postprocess.Processor in five configurations (legacy waves, scheduler, "
+        "MultiFetch + scheduler, scheduler on a subscription plan, MultiFetch on legacy waves), three times each; 1 in 12 "
+        "cases is malformed (a fetch listed twice, at most 12 fetches, no entity fetches). The tree dump carries, per node, "
+        "id, DependsOnFetchIDs and MergedFetchIDs; the member-level spec is evaluated against the planner's original "
+        "per-fetch dependencies. A case is distinct by the hash of its line and "
         "non-trivial when the plan is acyclic with unique ids and has at least one fork (an in-list fetch that "
         "two fetches depend on) and one join (a fetch with two distinct in-list dependencies).")
 
@@ -62,11 +67,17 @@ def distribution(cases):
             panics += 1
         m = re.match(r"\(c08 \w+ \(dag(.*?)\) \(res ", c)
         if m:
-            fs = re.findall(r"\(f (\d+) \(([\d ]*)\)\)", m.group(1))
+            fs = re.findall(r"\(f (\d+) \(([\d ]*)\) ", m.group(1))
             have = set(i for i, _ in fs)
             if any(x not in have for _, d in fs for x in d.split()):
                 absent += 1
     d["with_dependency_on_absent_id"] = absent
+    d["with_entity_fetches"] = sum(1 for c in cases if re.search(r"\(f \d+ \([\d ]*\) \(\d+ \d+\)\)", c))
+    merged = [len(re.findall(r"\(S \d+ \([\d ]*\) \(\d[\d ]*\)\)", _first_tree(c, "m") or "")) for c in cases]
+    d["with_merged_node_in_mode_m"] = sum(1 for m in merged if m > 0)
+    d["merged_nodes_in_mode_m"] = sum(merged)
+    d["merge_scheduler_tree_differs_from_merge_waves"] = sum(
+        1 for c in cases if _first_tree(c, "m") and _first_tree(c, "M") and _first_tree(c, "m") != _first_tree(c, "M"))
     d["scheduler_tree_differs_from_waves"] = sched_differs
     d["scheduler_tree_with_sequence_inside_parallel"] = nested
     d["implementation_panics"] = panics
@@ -100,9 +111,11 @@ def run(chk):
         "acyclic plans with unique ids, so only 'pdqsort sorts when the comparator is a strict total order' is assumed",
         "graph searches of schedule_fetches.go (weaklyConnectedComponents, colorExclusive) are modelled at the level of "
         "sets (Go iterates maps in random order); tied by correspondence over three runs per configuration",
-        "createMultiFetch is taken as the identity (the generated fetches are not mergeable entity fetches); "
-        "addMissingNestedDependencies, deduplication and all non-structural stages are switched off in the harness: the "
-        "theorems quantify over the dependency lists those stages output, assumed acyclic",
+        "createMultiFetch is modelled on wave trees (grouping by datasource inside a wave, envelope precondition, "
+        "unionDependencies, survivor = least id, redirect of dependants); isCandidate and the document-level merge "
+        "preconditions (buildMergedOperation) are an input attribute: the harness builds entity fetches whose documents "
+        "always merge; addMissingNestedDependencies, deduplication and all non-structural stages are switched off in the "
+        "harness: the theorems quantify over the dependency lists those stages output, assumed acyclic",
         "the model's scheduler recursion has fuel S(length l); sufficiency is proved for the legacy pipeline "
         "(c08_organize_waves_total) but not for the scheduler: an out-of-fuel model result is reported as a driver error",
         "harness/cmd/c08 (generator, tree printer, processor options that isolate the stages)",
@@ -139,8 +152,10 @@ def _corpus_line(case):
     m = re.match(r"\(c08 (\w+) \(dag(.*?)\) \(res ", case)
     if not m:
         return None
-    fs = re.findall(r"\(f (\d+) \(([\d ]*)\)\)", m.group(2))
-    return "%s\t%s" % (m.group(1), " ".join("%s:%s" % (i, ",".join(d.split())) for i, d in fs))
+    fs = re.findall(r"\(f (\d+) \(([\d ]*)\) (-|\(\d+ \d+\))\)", m.group(2))
+    return "%s\t%s" % (m.group(1), " ".join(
+        "%s:%s%s" % (i, ",".join(d.split()), "" if src == "-" else "@" + src.strip("()").replace(" ", "."))
+        for i, d, src in fs))
 
 
 def replay(chk, path):
